@@ -3,6 +3,7 @@ package main
 import (
 	"fmt"
 	"go/token"
+	"go/types"
 	"strings"
 
 	"golang.org/x/tools/go/ssa"
@@ -22,6 +23,9 @@ func init() {
 	}, runC18)
 
 	addVariants(
+		Variant{ID: "c18-r6-interval-count-shortcut", Prop: "C18", File: "replication/mysql56_gtid_set.go",
+			Old: "\t\tcount := len(intervals)\n\n\t\t// Check each interval for this SID in the other set.\n", New: "\t\tcount := len(intervals)\n\t\tif len(otherIntervals) > count {\n\t\t\treturn false\n\t\t}\n\n\t\t// Check each interval for this SID in the other set.\n",
+			Expect: "C18-R6 count-shortcut@Contains"},
 		Variant{ID: "c18-r5-interval-order-by-difference", Prop: "C18", File: "replication/mysql56_gtid_set.go",
 			Old: "func (s intervalList) Less(i, j int) bool { return s[i].start < s[j].start }", New: "func (s intervalList) Less(i, j int) bool { return s[i].start-s[j].start < 0 }",
 			Expect: "C18-R5 order@"},
@@ -75,6 +79,7 @@ func runC18(a *A) {
 	c18R3(a)
 	c18R4(a)
 	c18R5(a)
+	c18R6(a)
 }
 
 // R4: AddGTID carries every interval of the receiver over: the loops that range over receiver-derived lists leave only through
@@ -416,4 +421,122 @@ func c18R5(a *A) {
 		}
 	}
 	a.atLeast(rule, "order@", 2)
+}
+
+// R6: two shortcuts that are never a subset test. Set-algebra agreement is not decided (it is a statement about values),
+// but in Contains - and in the in-package functions it calls - (a) no branch may depend on comparing the NUMBER of
+// intervals the two sets hold for a server: a set with one wide interval contains sets with many narrow ones; (b) an
+// interval of the other set must not be accepted by looking up its two end points as single GTIDs: the end points can lie
+// in different intervals of the receiver with a gap between them. Each fires only on code whose answer is wrong for some
+// pair of sets.
+func c18R6(a *A) {
+	const rule = "C18-R6"
+	w := a.W
+	f := w.method(w.Repl, "Mysql56GTIDSet", "Contains")
+	if !a.need(f != nil, rule, "Mysql56GTIDSet.Contains") {
+		return
+	}
+	a.touch(f)
+	isIvSlice := func(t types.Type) bool {
+		sl, ok := t.Underlying().(*types.Slice)
+		return ok && typeIs(sl.Elem(), replPath, "interval")
+	}
+	// where an interval list comes from: the receiver (parameter 0) or something else
+	var fromRecv func(v ssa.Value, d int) bool
+	fromRecv = func(v ssa.Value, d int) bool {
+		if d > 10 || v == nil {
+			return false
+		}
+		switch x := v.(type) {
+		case *ssa.Parameter:
+			return x == f.Params[0]
+		case *ssa.Lookup:
+			return fromRecv(x.X, d+1)
+		case *ssa.Extract:
+			return fromRecv(x.Tuple, d+1)
+		case *ssa.Next:
+			return fromRecv(x.Iter, d+1)
+		case *ssa.Range:
+			return fromRecv(x.X, d+1)
+		case *ssa.Slice:
+			return fromRecv(x.X, d+1)
+		case *ssa.ChangeType:
+			return fromRecv(x.X, d+1)
+		case *ssa.Phi:
+			for _, e := range x.Edges {
+				if fromRecv(e, d+1) {
+					return true
+				}
+			}
+		}
+		return false
+	}
+	lenOf := func(v ssa.Value) (ssa.Value, bool) {
+		c, ok := stripW(v).(*ssa.Call)
+		if !ok || !isBuiltin(c.Common(), "len") || !isIvSlice(c.Common().Args[0].Type()) {
+			return nil, false
+		}
+		return c.Common().Args[0], true
+	}
+	bad := 0
+	instrs(f, func(in ssa.Instruction) {
+		bo, ok := in.(*ssa.BinOp)
+		if !ok {
+			return
+		}
+		switch bo.Op {
+		case token.LSS, token.LEQ, token.GTR, token.GEQ, token.EQL, token.NEQ:
+		default:
+			return
+		}
+		lx, okx := lenOf(bo.X)
+		ly, oky := lenOf(bo.Y)
+		if okx && oky && fromRecv(lx, 0) != fromRecv(ly, 0) {
+			bad++
+			a.viol(rule, fmt.Sprintf("count-shortcut@Contains#%d", bad), w.posOf(bo), "Contains compares how many intervals the two sets hold for a server: the number of intervals says nothing about coverage (uuid:1-10 contains uuid:1-2:4-5:7), so the answer is wrong for such pairs")
+		}
+	})
+	if bad == 0 {
+		a.hold(rule, "count-shortcut@Contains", w.pos(f.Pos()), "no decision on the number of intervals of the two sets")
+	}
+	// (b) end-point lookups
+	point := w.method(w.Repl, "Mysql56GTIDSet", "ContainsGTID")
+	nb := 0
+	if point != nil {
+		instrs(f, func(in ssa.Instruction) {
+			st, ok := in.(*ssa.Store)
+			if !ok {
+				return
+			}
+			fa, ok := st.Addr.(*ssa.FieldAddr)
+			if !ok || !typeIs(fa.X.Type(), replPath, "Mysql56GTID") || fieldName(fa) != "Sequence" {
+				return
+			}
+			fromIv := false
+			switch x := stripW(st.Val).(type) {
+			case *ssa.Field:
+				fromIv = typeIs(x.X.Type(), replPath, "interval")
+			case *ssa.UnOp:
+				if fa2, ok := x.X.(*ssa.FieldAddr); ok && x.Op == token.MUL {
+					fromIv = typeIs(fa2.X.Type(), replPath, "interval")
+				}
+			}
+			if !fromIv {
+				return
+			}
+			calls := false
+			instrs(f, func(i2 ssa.Instruction) {
+				if c, ok := i2.(*ssa.Call); ok && c.Common().StaticCallee() == point {
+					calls = true
+				}
+			})
+			if calls {
+				nb++
+				a.viol(rule, fmt.Sprintf("endpoint-lookup@Contains#%d", nb), w.posOf(st), "Contains looks an end point of the other set's interval up as a single GTID: both end points can be members while the sequence numbers between them are not (1-5:10-20 does not contain 3-12)")
+			}
+		})
+	}
+	if nb == 0 {
+		a.hold(rule, "endpoint-lookup@Contains", w.pos(f.Pos()), "no interval accepted by point lookups of its end points")
+	}
 }
